@@ -1433,7 +1433,7 @@ class _ProtoBuilder:
                 (
                     c
                     for c in self.opts.retry.get("methodConfig", [])
-                    if selector in c.get("name")
+                    if selector in c.get("name", ())
                 ),
                 None,
             )
